@@ -320,6 +320,23 @@ def gen_case(rng, cls=None, admissible_only=False):
         a = rng.randrange(n)
         sel = [a, rng.randrange(a, n)]
     loaded = sliced({"sel": sel}, events)
+    if admissible_only is False and rng.random() < 0.12 and any(len(e) for e in loaded):
+        # order matters: a particle-removing filter FIRST, then a multiplicity window whose bounds lie at / next to the RAW
+        # multiplicities of the events (so that an event passes or fails the cut only because of what the first filter removed)
+        first = rng.choice([["charged_particles", {"t": "bool", "v": True}], ["uncharged_particles", {"t": "bool", "v": True}],
+                            ["keep_hadrons", {"t": "bool", "v": True}], ["keep_mesons", {"t": "bool", "v": True}]])
+        if first[0] not in KEYS[cls]:
+            first = ["charged_particles", {"t": "bool", "v": True}]
+        raw = [len(e) for e in loaded if len(e)]
+        hi = rng.choice(raw) + rng.choice([0, 0, 1, -1])
+        lo = rng.choice([None, None, 0, 1, max(0, rng.choice(raw) - 1)])
+        win = c03.A_tuple(c03.A_none() if lo is None else c03.A_num(lo), c03.A_num(max(hi, 0)))
+        if rng.random() < 0.25:
+            win = c03.A_tuple(win["v"][1], win["v"][0])               # limits in the other order
+        filters = [first, ["multiplicity_cut", win]]
+        if rng.random() < 0.3:
+            filters.append(["pT_cut", c03.gen_args(rng, "pT_cut", loaded, False)[0]])
+        return {"cls": cls, "events": events, "sel": sel, "filters": filters}
     nk = rng.choice([1, 1, 2, 2, 3, 4])
     pool = KEYS[cls]
     keys = []
